@@ -21,12 +21,12 @@ Definition to_json (t : ty) (v : cv) (aux : list N) : option json :=
   | TyTask => task_to v
   end.
 
-Definition of_json (t : ty) (prior : list cv) (j : json) : presult cv :=
+Definition of_json_a (inforce : list N) (t : ty) (prior : list cv) (j : json) : presult cv :=
   let opt o := match o with Some v => POk v | None => PErr end in
   match t, j with
   | TyDate, JStr s => opt (date_of s)
   | TyDate, JNull => POk cv_date_zero
-  | TyDateTime, JStr s => opt (datetime_of s)
+  | TyDateTime, JStr s => match datetime_of inforce s with DOk v => POk v | DErr => PErr | DUnknown => PUnknown end
   | TyDateTime, JNull => POk (VL [VZ 1; VZ 1; VZ 1; VZ 0; VZ 0; VZ 0])
   | TyHHmm, JStr s => opt (hhmm_of s)
   | TyPIN, JStr s => opt (pin_of s)
@@ -45,6 +45,8 @@ Definition of_json (t : ty) (prior : list cv) (j : json) : presult cv :=
   | TyTask, _ => task_of j
   | _, _ => PErr
   end.
+
+Definition of_json := of_json_a [].
 
 Fixpoint cv_eqb (a b : cv) {struct a} : bool :=
   match a, b with
@@ -119,7 +121,7 @@ Definition text_to (k : N) (v : cv) : option (list N) :=
 Definition model_ok14 (c : case14) : bool :=
   match c with
   | CRound t v aux j back =>
-      match to_json t v aux with Some mj => json_eqb mj j | None => false end && res_ok (of_json t [] j) back
+      match to_json t v aux with Some mj => json_eqb mj j | None => false end && res_ok (of_json_a aux t [] j) back
   | COf t prior j obs => res_ok (of_json t prior j) obs
   | CText k s obs => res_ok (text_of k s) obs
   | CTextRound k v s obs => match text_to k v with Some ms => nlist_eqb ms s | None => false end && res_ok (text_of k s) obs
